@@ -4,10 +4,12 @@ import (
 	"encoding/json"
 	"flag"
 	"fmt"
+	"go/types"
 	"os"
 	"runtime/debug"
 	"sort"
 	"strconv"
+	"strings"
 	"time"
 
 	"golang.org/x/tools/go/ssa"
@@ -53,7 +55,23 @@ func main() {
 	}
 	if *list {
 		for _, f := range w.Funcs {
-			fmt.Println(w.name(f) + "\t" + w.sigKey(f))
+			var ps []string
+			for _, p := range f.Params {
+				ps = append(ps, p.Name())
+			}
+			fmt.Println(w.name(f) + "\t" + w.sigKey(f) + "\t" + strings.Join(ps, ","))
+		}
+		scope := w.Pkg.Types.Scope()
+		for _, n := range scope.Names() {
+			if tn, ok := scope.Lookup(n).(*types.TypeName); ok {
+				if st, ok := tn.Type().Underlying().(*types.Struct); ok {
+					var fs []string
+					for i := 0; i < st.NumFields(); i++ {
+						fs = append(fs, st.Field(i).Name()+":"+w.typeName(st.Field(i).Type()))
+					}
+					fmt.Println("STRUCT\t" + n + "\t" + strings.Join(fs, ","))
+				}
+			}
 		}
 		return
 	}
